@@ -196,6 +196,19 @@ type MessageDebug struct {
 
 func (*MessageDebug) GetID() uint32 { return 50020 }
 
+// a struct written by a generator that spells the tag out on every field: only mavext:"true" marks an extension
+type MessageVfExtSpelled struct {
+	A uint8    `mavext:"false"`
+	B uint32   `mavext:"false"`
+	C [2]int16 `mavext:"false"`
+	D string   `mavext:"false" mavlen:"3"`
+	E uint16   `mavext:""`
+	X uint64   `mavext:"true"`
+	Y uint8    `mavext:"true"`
+}
+
+func (*MessageVfExtSpelled) GetID() uint32 { return 50040 }
+
 // structs that the library may or may not accept (the documentation is silent): IF Initialize accepts one, it is a user
 // struct like any other and must follow the spec layout
 type MessageVfMaybeEnumInt16 struct {
@@ -229,7 +242,7 @@ func userMessages() []message.Message {
 	return []message.Message{
 		&MessageVfOne{}, &MessageVfAllTypes{}, &MessageVfStable{}, &MessageVfExtMix{}, &MessageVfMavname{},
 		&MessageVfBig255{}, &MessageVfBigString{}, &MessageVfSingle{}, &MessageVfEnums{}, &MessageVfBaseAndBigExt{},
-		&MessageVfEsc_1To_4{}, &MessageVf2Gps2Raw{}, &MessageVfWide{}, &MessageVfHighID{}, &MessageVfLowID{}, &MessageDebug{},
+		&MessageVfEsc_1To_4{}, &MessageVf2Gps2Raw{}, &MessageVfWide{}, &MessageVfHighID{}, &MessageVfLowID{}, &MessageDebug{}, &MessageVfExtSpelled{},
 		// a user package called "common" with messages that carry the names and ids of shipped ones and other definitions
 		&twincommon.MessageHeartbeat{}, &twincommon.MessageDebug{}, &twincommon.MessageParamRequestRead{},
 	}
